@@ -13,10 +13,12 @@ import (
 )
 
 type Result struct {
-	Answer string // unsat sat unknown timeout error
-	Solver string
-	Time   time.Duration
-	Output string
+	Answer   string // unsat sat unknown timeout error
+	Solver   string
+	Time     time.Duration
+	Output   string
+	All      map[string]string // solver -> answer (thorough tier)
+	Conflict bool              // two solvers gave contradicting decisive answers
 }
 
 type solver struct {
@@ -30,9 +32,29 @@ var solvers = []solver{
 	{"cvc5", []string{"cvc5", "--full-saturate-quant"}},
 }
 
-func run1(ctx context.Context, s solver, file string) Result {
+// Available reports which solvers can be started.
+func Available() []string {
+	var out []string
+	for _, s := range solvers {
+		if _, err := exec.LookPath(s.argv[0]); err == nil {
+			out = append(out, s.name)
+		}
+	}
+	return out
+}
+
+func run1(ctx context.Context, s solver, file string, seed int) Result {
 	start := time.Now()
-	cmd := exec.CommandContext(ctx, s.argv[0], append(s.argv[1:], file)...)
+	argv := append([]string{}, s.argv[1:]...)
+	if seed != 0 {
+		switch s.name {
+		case "z3", "z3-new":
+			argv = append(argv, "smt.random_seed="+itoa(seed), "sat.random_seed="+itoa(seed))
+		case "cvc5":
+			argv = append(argv, "--seed="+itoa(seed))
+		}
+	}
+	cmd := exec.CommandContext(ctx, s.argv[0], append(argv, file)...)
 	var out bytes.Buffer
 	cmd.Stdout = &out
 	cmd.Stderr = &out
@@ -54,27 +76,63 @@ func run1(ctx context.Context, s solver, file string) Result {
 	return r
 }
 
-// Race runs all solvers on the script; returns the first decisive answer (unsat, or sat when wantSat) or the best other.
-func Race(script string, dir, name string, timeout time.Duration, wantSat bool) Result {
+func itoa(n int) string {
+	if n == 0 {
+		return "0"
+	}
+	neg := n < 0
+	if neg {
+		n = -n
+	}
+	var b []byte
+	for n > 0 {
+		b = append([]byte{byte('0' + n%10)}, b...)
+		n /= 10
+	}
+	if neg {
+		b = append([]byte{'-'}, b...)
+	}
+	return string(b)
+}
+
+// Race runs all solvers on the script; returns the first decisive answer (unsat, or sat) or the best other.
+// With all set, every solver runs to its answer (or the limit) and contradicting answers are flagged.
+func Race(script string, dir, name string, timeout time.Duration, seed int, all bool) Result {
 	file := filepath.Join(dir, name+".smt2")
 	_ = os.WriteFile(file, []byte(script), 0o644)
 	ctx, cancel := context.WithTimeout(context.Background(), timeout)
 	defer cancel()
 	ch := make(chan Result, len(solvers))
 	for _, s := range solvers {
-		go func(s solver) { ch <- run1(ctx, s, file) }(s)
+		go func(s solver) { ch <- run1(ctx, s, file, seed) }(s)
 	}
-	var best Result
+	var best, decisive Result
+	answers := map[string]string{}
 	for range solvers {
 		r := <-ch
+		answers[r.Solver] = r.Answer
 		if r.Answer == "unsat" || r.Answer == "sat" {
-			cancel()
-			return r
+			if decisive.Answer == "" {
+				decisive = r
+			} else if decisive.Answer != r.Answer {
+				decisive.Conflict = true
+			}
+			if !all {
+				cancel()
+				decisive.All = answers
+				return decisive
+			}
+			continue
 		}
 		if best.Answer == "" || best.Answer == "timeout" || (best.Answer == "error" && r.Answer != "error") {
 			best = r
 		}
 	}
+	if decisive.Answer != "" {
+		decisive.All = answers
+		return decisive
+	}
+	best.All = answers
 	return best
 }
 
